@@ -36,6 +36,156 @@ trait Model: Serialize + DeserializeOwned + Debug + Clone {
     }
 }
 
+
+// ---------------------------------------------------------------- long strings, compactly
+
+/// `list N` term for a sequence of numbers; long ones in run-length form
+/// (`[..]%N ++ nrep c n ++ ..`, `nrep` is defined in Corr/CorrC19.v), so that a 65 536-byte
+/// string costs Coq a few tokens to read while the model still works on the whole string.
+fn gal_nums(v: &[u64]) -> String {
+    if v.len() <= 48 {
+        return gal_nlist(v.iter().copied());
+    }
+    let mut segs: Vec<String> = Vec::new();
+    let mut lit: Vec<u64> = Vec::new();
+    let mut i = 0;
+    while i < v.len() {
+        let mut j = i;
+        while j < v.len() && v[j] == v[i] {
+            j += 1;
+        }
+        if j - i >= 12 {
+            if !lit.is_empty() {
+                segs.push(gal_nlist(lit.drain(..)));
+            }
+            segs.push(format!("nrep {} {}", v[i], j - i));
+        } else {
+            lit.extend_from_slice(&v[i..j]);
+        }
+        i = j;
+    }
+    if !lit.is_empty() {
+        segs.push(gal_nlist(lit.drain(..)));
+    }
+    format!("({})", segs.join(" ++ "))
+}
+/// JSON that is valid UTF-8 whatever the engine handed back (see INVALID_UTF8)
+fn jclean(j: serde_json::Value) -> serde_json::Value {
+    use serde_json::Value as J;
+    match j {
+        J::String(s) => J::String(String::from_utf8_lossy(s.as_bytes()).into_owned()),
+        J::Array(a) => J::Array(a.into_iter().map(jclean).collect()),
+        J::Object(o) => J::Object(o.into_iter().map(|(k, v)| (String::from_utf8_lossy(k.as_bytes()).into_owned(), jclean(v))).collect()),
+        other => other,
+    }
+}
+
+/// strings that turned out not to be valid UTF-8 (only possible after a memory-safety bug in the
+/// engine: `as_str()` of a Value is `from_utf8_unchecked`); reported as oracle failures at the end
+static INVALID_UTF8: std::sync::Mutex<Vec<String>> = std::sync::Mutex::new(Vec::new());
+
+fn gal_lstr(s: &str) -> String {
+    if std::str::from_utf8(s.as_bytes()).is_err() {
+        let lossy = String::from_utf8_lossy(s.as_bytes()).into_owned();
+        let mut g = INVALID_UTF8.lock().unwrap();
+        if g.len() < 20 {
+            g.push(format!("{} bytes: {:?}", s.len(), lossy.chars().take(40).collect::<String>()));
+        }
+        return gal_nums(&lossy.chars().map(|c| c as u32 as u64).collect::<Vec<_>>());
+    }
+    gal_nums(&s.chars().map(|c| c as u32 as u64).collect::<Vec<_>>())
+}
+fn gal_lbytes(b: &[u8]) -> String {
+    gal_nums(&b.iter().map(|x| *x as u64).collect::<Vec<_>>())
+}
+fn gal_lkey(k: &tera::value::Key) -> String {
+    use tera::value::Key;
+    match k {
+        Key::String(s) => format!("(KStr {} true)", gal_lstr(s)),
+        Key::Str(s) => format!("(KStr {} false)", gal_lstr(s)),
+        _ => gal_key(k),
+    }
+}
+/// `tvh::gal_value` with the compact string form
+fn gal_lvalue(v: &Value) -> String {
+    use tera::value::ValueKind as K;
+    match v.kind() {
+        K::String => format!("(VStr {} {})", gal_lstr(v.as_str().unwrap()), gal_bool(v.is_safe())),
+        K::Array => {
+            let parts: Vec<String> = v.as_array().unwrap().iter().map(gal_lvalue).collect();
+            format!("(VArr [{}])", parts.join("; "))
+        }
+        K::Map => {
+            let parts: Vec<String> = sorted_entries(v.as_map().unwrap())
+                .into_iter()
+                .map(|(k, x)| format!("({}, {})", gal_lkey(k), gal_lvalue(x)))
+                .collect();
+            format!("(VMap [{}])", parts.join("; "))
+        }
+        K::Bytes => format!("(VBytes {})", gal_lbytes(v.as_bytes().unwrap())),
+        _ => gal_value(v),
+    }
+}
+
+/// Byte lengths at which the representation of a string could change: the inline/Arc limit of
+/// SmartString (21/22), a u8 length wrapping (255/256/257, 256+21, 256+22, 511/512, 512+21), a
+/// u16 length wrapping (65535/65536, 65536+21).
+const LONG_LENS: [usize; 17] = [0, 1, 21, 22, 23, 24, 255, 256, 257, 277, 278, 511, 512, 533, 65535, 65536, 65557];
+
+/// A string of exactly `len` UTF-8 bytes. variant 0: ASCII, begins with its own length, ends in
+/// 'Z'; variants 1..=3: a 2-/3-/4-byte character whose encoding lies across byte 21|22, ASCII
+/// around it (falls back to ASCII when `len` is too short for that).
+fn long_string(len: usize, variant: u32) -> String {
+    let (lead, ch) = match variant {
+        1 => (20usize, Some('\u{e9}')),
+        2 => (19, Some('\u{65e5}')),
+        3 => (18, Some('\u{1f600}')),
+        _ => (0, None),
+    };
+    if let Some(c) = ch {
+        if len >= lead + c.len_utf8() {
+            let mut s = "a".repeat(lead);
+            s.push(c);
+            let rest = len - s.len();
+            if rest > 0 {
+                s.push_str(&"y".repeat(rest - 1));
+                s.push('Z');
+            }
+            debug_assert_eq!(s.len(), len);
+            return s;
+        }
+    }
+    let mut s = format!("{len}|");
+    if s.len() > len {
+        s.truncate(len);
+        return s;
+    }
+    let rest = len - s.len();
+    if rest > 0 {
+        s.push_str(&"x".repeat(rest - 1));
+        s.push('Z');
+    }
+    s
+}
+/// every boundary length, ASCII and multi-byte
+fn long_strings() -> Vec<String> {
+    let mut v = Vec::new();
+    for len in LONG_LENS {
+        for variant in 0..(if len >= 65535 { 2 } else { 4 }) {
+            let s = long_string(len, variant);
+            if !v.contains(&s) {
+                v.push(s);
+            }
+        }
+    }
+    v
+}
+/// a long string for a generated value: mostly the lengths up to 533, sometimes the 64 KiB ones
+fn arb_long_string(r: &mut Rng) -> String {
+    let len = if r.chance(1, 16) { LONG_LENS[14 + r.below(3)] } else { LONG_LENS[2 + r.below(12)] };
+    long_string(len, r.below(4) as u32)
+}
+
 fn gal_list(parts: Vec<String>) -> String {
     format!("[{}]", parts.join("; "))
 }
@@ -172,10 +322,12 @@ impl Model for String {
         "TString".into()
     }
     fn sval(&self) -> String {
-        format!("(SStr {})", gal_str(self))
+        format!("(SStr {})", gal_lstr(self))
     }
     fn arb(r: &mut Rng, _: u32) -> Self {
-        if r.chance(3, 4) {
+        if r.chance(1, 8) {
+            arb_long_string(r)
+        } else if r.chance(3, 4) {
             r.pick(&pools::string_pool()).to_string()
         } else {
             let n = r.below(6);
@@ -183,7 +335,11 @@ impl Model for String {
         }
     }
     fn boundary() -> Vec<Self> {
-        pools::string_pool().iter().map(|s| s.to_string()).collect()
+        // two long ones first (Option<String> and the map-key chunks take a prefix of this list)
+        let mut v = vec![long_string(256, 0), long_string(22, 1)];
+        v.extend(pools::string_pool().iter().map(|s| s.to_string()));
+        v.extend(long_strings());
+        v
     }
 }
 impl<T: Model> Model for Option<T> {
@@ -219,7 +375,17 @@ impl<T: Model> Model for Vec<T> {
         (0..arb_len(r, d)).map(|_| T::arb(r, d + 1)).collect()
     }
     fn boundary() -> Vec<Self> {
-        vec![vec![]]
+        // lengths around the thresholds a sequence could have (inline capacity, u8 length); the
+        // big ones only where the elements are small
+        let mut out = vec![vec![]];
+        let mut r = Rng::new(0x5eed);
+        for n in [1usize, 21, 22, 255, 256, 257] {
+            let v: Vec<T> = (0..n).map(|_| T::arb(&mut r, 3)).collect();
+            if v.iter().map(|x| x.sval().len()).sum::<usize>() < 16_000 {
+                out.push(v);
+            }
+        }
+        out
     }
 }
 macro_rules! model_tuple {
@@ -253,6 +419,16 @@ impl<K: Model + Ord, V: Model> Model for BTreeMap<K, V> {
         for chunk in ks.chunks(4).take(24) {
             let mut r = Rng::new(chunk.len() as u64);
             v.push(chunk.iter().map(|k| (k.clone(), V::arb(&mut r, 2))).collect());
+        }
+        // sizes around get_attr's scan-vs-hash cutoffs (6, 12) and beyond
+        for n in [6usize, 7, 12, 13, 33] {
+            if ks.len() >= n {
+                let mut r = Rng::new(n as u64);
+                let m: Self = ks.iter().rev().take(n).map(|k| (k.clone(), V::arb(&mut r, 3))).collect();
+                if m.iter().map(|(k, x)| k.sval().len() + x.sval().len()).sum::<usize>() < 16_000 {
+                    v.push(m);
+                }
+            }
         }
         v
     }
@@ -295,11 +471,11 @@ macro_rules! model_struct {
         struct $name { $($f: $t),* }
         impl Model for $name {
             fn ty() -> String {
-                let fs: Vec<String> = vec![$(format!("({}, {})", gal_str(stringify!($f)), <$t as Model>::ty())),*];
+                let fs: Vec<String> = vec![$(format!("({}, {})", gal_lstr(stringify!($f)), <$t as Model>::ty())),*];
                 format!("(TStruct {})", gal_list(fs))
             }
             fn sval(&self) -> String {
-                let fs: Vec<String> = vec![$(format!("({}, {})", gal_str(stringify!($f)), self.$f.sval())),*];
+                let fs: Vec<String> = vec![$(format!("({}, {})", gal_lstr(stringify!($f)), self.$f.sval())),*];
                 format!("(SStruct {})", gal_list(fs))
             }
             #[allow(unused_variables)]
@@ -319,7 +495,7 @@ enum UE {
 }
 impl Model for UE {
     fn ty() -> String {
-        format!("(TEnum [VUnit {}; VUnit {}; VUnit {}])", gal_str("Zeta"), gal_str("Alpha"), gal_str("Mid"))
+        format!("(TEnum [VUnit {}; VUnit {}; VUnit {}])", gal_lstr("Zeta"), gal_lstr("Alpha"), gal_lstr("Mid"))
     }
     fn sval(&self) -> String {
         let n = match self {
@@ -327,7 +503,7 @@ impl Model for UE {
             UE::Alpha => "Alpha",
             UE::Mid => "Mid",
         };
-        format!("(SVariant {} VKUnit SUnit)", gal_str(n))
+        format!("(SVariant {} VKUnit SUnit)", gal_lstr(n))
     }
     fn arb(r: &mut Rng, _: u32) -> Self {
         [UE::Zeta, UE::Alpha, UE::Mid][r.below(3)].clone()
@@ -432,18 +608,18 @@ impl Model for E {
     fn ty() -> String {
         format!(
             "(TEnum [VUnit {}; VNewtype {} {}; VTuple {} [{}; {}]; VStruct {} [({}, {}); ({}, {})]])",
-            gal_str("A"), gal_str("B"), u8::ty(), gal_str("C"), i64::ty(), String::ty(),
-            gal_str("D"), gal_str("x"), i32::ty(), gal_str("y"), <Option<String>>::ty()
+            gal_lstr("A"), gal_lstr("B"), u8::ty(), gal_lstr("C"), i64::ty(), String::ty(),
+            gal_lstr("D"), gal_lstr("x"), i32::ty(), gal_lstr("y"), <Option<String>>::ty()
         )
     }
     fn sval(&self) -> String {
         match self {
-            E::A => format!("(SVariant {} VKUnit SUnit)", gal_str("A")),
-            E::B(x) => format!("(SVariant {} VKNewtype {})", gal_str("B"), x.sval()),
-            E::C(x, y) => format!("(SVariant {} VKTuple (STuple [{}; {}]))", gal_str("C"), x.sval(), y.sval()),
+            E::A => format!("(SVariant {} VKUnit SUnit)", gal_lstr("A")),
+            E::B(x) => format!("(SVariant {} VKNewtype {})", gal_lstr("B"), x.sval()),
+            E::C(x, y) => format!("(SVariant {} VKTuple (STuple [{}; {}]))", gal_lstr("C"), x.sval(), y.sval()),
             E::D { x, y } => format!(
                 "(SVariant {} VKStruct (SStruct [({}, {}); ({}, {})]))",
-                gal_str("D"), gal_str("x"), x.sval(), gal_str("y"), y.sval()
+                gal_lstr("D"), gal_lstr("x"), x.sval(), gal_lstr("y"), y.sval()
             ),
         }
     }
@@ -475,23 +651,23 @@ impl Model for E2 {
     fn ty() -> String {
         format!(
             "(TEnum [VNewtype {} {}; VNewtype {} {}; VNewtype {} {}; VNewtype {} TUnit; VTuple {} [{}; {}]; VStruct {} [({}, {}); ({}, {})]; VUnit {}])",
-            gal_str("N"), <Option<u8>>::ty(), gal_str("V"), <Vec<E>>::ty(), gal_str("M"), <BTreeMap<u8, UE>>::ty(), gal_str("U"),
-            gal_str("T"), u128::ty(), <(i8, char)>::ty(),
-            gal_str("S"), gal_str("e"), E::ty(), gal_str("m"), <BTreeMap<char, f64>>::ty(), gal_str("renamed")
+            gal_lstr("N"), <Option<u8>>::ty(), gal_lstr("V"), <Vec<E>>::ty(), gal_lstr("M"), <BTreeMap<u8, UE>>::ty(), gal_lstr("U"),
+            gal_lstr("T"), u128::ty(), <(i8, char)>::ty(),
+            gal_lstr("S"), gal_lstr("e"), E::ty(), gal_lstr("m"), <BTreeMap<char, f64>>::ty(), gal_lstr("renamed")
         )
     }
     fn sval(&self) -> String {
         match self {
-            E2::N(x) => format!("(SVariant {} VKNewtype {})", gal_str("N"), x.sval()),
-            E2::V(x) => format!("(SVariant {} VKNewtype {})", gal_str("V"), x.sval()),
-            E2::M(x) => format!("(SVariant {} VKNewtype {})", gal_str("M"), x.sval()),
-            E2::U(x) => format!("(SVariant {} VKNewtype {})", gal_str("U"), x.sval()),
-            E2::T(x, y) => format!("(SVariant {} VKTuple (STuple [{}; {}]))", gal_str("T"), x.sval(), y.sval()),
+            E2::N(x) => format!("(SVariant {} VKNewtype {})", gal_lstr("N"), x.sval()),
+            E2::V(x) => format!("(SVariant {} VKNewtype {})", gal_lstr("V"), x.sval()),
+            E2::M(x) => format!("(SVariant {} VKNewtype {})", gal_lstr("M"), x.sval()),
+            E2::U(x) => format!("(SVariant {} VKNewtype {})", gal_lstr("U"), x.sval()),
+            E2::T(x, y) => format!("(SVariant {} VKTuple (STuple [{}; {}]))", gal_lstr("T"), x.sval(), y.sval()),
             E2::S { e, m } => format!(
                 "(SVariant {} VKStruct (SStruct [({}, {}); ({}, {})]))",
-                gal_str("S"), gal_str("e"), e.sval(), gal_str("m"), m.sval()
+                gal_lstr("S"), gal_lstr("e"), e.sval(), gal_lstr("m"), m.sval()
             ),
-            E2::R => format!("(SVariant {} VKUnit SUnit)", gal_str("renamed")),
+            E2::R => format!("(SVariant {} VKUnit SUnit)", gal_lstr("renamed")),
         }
     }
     fn arb(r: &mut Rng, d: u32) -> Self {
@@ -507,6 +683,61 @@ impl Model for E2 {
     }
     fn boundary() -> Vec<Self> {
         vec![E2::N(None), E2::N(Some(0)), E2::V(vec![]), E2::M(BTreeMap::new()), E2::U(()), E2::R, E2::T(u128::MAX, (i8::MIN, '\u{10ffff}'))]
+    }
+}
+
+// field and variant NAMES at the string-representation boundaries (they become keys, and keys
+// become string values again when a struct / enum is read back)
+#[derive(Serialize, Deserialize, PartialEq, Debug, Clone)]
+struct LongNames {
+    #[serde(rename = "nnnnnnnnnnnnnnnnnnnnnnnnnnnnnnnnnnnnnnnnnnnnnnnnnnnnnnnnnnnnnnnnnnnnnnnnnnnnnnnnnnnnnnnnnnnnnnnnnnnnnnnnnnnnnnnnnnnnnnnnnnnnnnnnnnnnnnnnnnnnnnnnnnnnnnnnnnnnnnnnnnnnnnnnnnnnnnnnnnnnnnnnnnnnnnnnnnnnnnnnnnnnnnnnnnnnnnnnnnnnnnnnnnnnnnnnnnnnnnnnnnnnnnnnnnnnnnnn")]
+    a: u8,
+    #[serde(rename = "ffffffffffffffffffffff")]
+    b: String,
+    c: LongVariant,
+}
+#[derive(Serialize, Deserialize, PartialEq, Eq, PartialOrd, Ord, Debug, Clone)]
+enum LongVariant {
+    #[serde(rename = "VVVVVVVVVVVVVVVVVVVVVVVVVVVVVVVVVVVVVVVVVVVVVVVVVVVVVVVVVVVVVVVVVVVVVVVVVVVVVVVVVVVVVVVVVVVVVVVVVVVVVVVVVVVVVVVVVVVVVVVVVVVVVVVVVVVVVVVVVVVVVVVVVVVVVVVVVVVVVVVVVVVVVVVVVVVVVVVVVVVVVVVVVVVVVVVVVVVVVVVVVVVVVVVVVVVVVVVVVVVVVVVVVVVVVVVVVVVVVVVVVVVVVVVVVVVVVVVVVVVVVVVVVVVVVVVVVVVVV")]
+    Unit,
+    #[serde(rename = "WWWWWWWWWWWWWWWWWWWWWWWWWWWWWWWWWWWWWWWWWWWWWWWWWWWWWWWWWWWWWWWWWWWWWWWWWWWWWWWWWWWWWWWWWWWWWWWWWWWWWWWWWWWWWWWWWWWWWWWWWWWWWWWWWWWWWWWWWWWWWWWWWWWWWWWWWWWWWWWWWWWWWWWWWWWWWWWWWWWWWWWWWWWWWWWWWWWWWWWWWWWWWWWWWWWWWWWWWWWWWWWWWWWWWWWWWWWWWWWWWWWWWWWWWWWWWWWW")]
+    New(u8),
+    Short,
+}
+impl Model for LongVariant {
+    fn ty() -> String {
+        format!("(TEnum [VUnit {}; VNewtype {} {}; VUnit {}])", gal_lstr(&"V".repeat(277)), gal_lstr(&"W".repeat(256)), u8::ty(), gal_lstr("Short"))
+    }
+    fn sval(&self) -> String {
+        match self {
+            LongVariant::Unit => format!("(SVariant {} VKUnit SUnit)", gal_lstr(&"V".repeat(277))),
+            LongVariant::New(x) => format!("(SVariant {} VKNewtype {})", gal_lstr(&"W".repeat(256)), x.sval()),
+            LongVariant::Short => format!("(SVariant {} VKUnit SUnit)", gal_lstr("Short")),
+        }
+    }
+    fn arb(r: &mut Rng, d: u32) -> Self {
+        match r.below(3) {
+            0 => LongVariant::Unit,
+            1 => LongVariant::New(u8::arb(r, d)),
+            _ => LongVariant::Short,
+        }
+    }
+    fn boundary() -> Vec<Self> {
+        vec![LongVariant::Unit, LongVariant::New(7), LongVariant::Short]
+    }
+}
+impl Model for LongNames {
+    fn ty() -> String {
+        format!("(TStruct [({}, {}); ({}, {}); ({}, {})])", gal_lstr(&"n".repeat(256)), u8::ty(), gal_lstr(&"f".repeat(22)), String::ty(), gal_lstr("c"), LongVariant::ty())
+    }
+    fn sval(&self) -> String {
+        format!("(SStruct [({}, {}); ({}, {}); ({}, {})])", gal_lstr(&"n".repeat(256)), self.a.sval(), gal_lstr(&"f".repeat(22)), self.b.sval(), gal_lstr("c"), self.c.sval())
+    }
+    fn arb(r: &mut Rng, d: u32) -> Self {
+        LongNames { a: u8::arb(r, d), b: String::arb(r, d), c: LongVariant::arb(r, d) }
+    }
+    fn boundary() -> Vec<Self> {
+        vec![LongNames { a: 1, b: long_string(256, 0), c: LongVariant::Unit }, LongNames { a: 0, b: String::new(), c: LongVariant::New(0) }]
     }
 }
 
@@ -541,10 +772,10 @@ struct KS {
 }
 impl Model for KS {
     fn ty() -> String {
-        format!("(TStruct [({}, {})])", gal_str("a"), u8::ty())
+        format!("(TStruct [({}, {})])", gal_lstr("a"), u8::ty())
     }
     fn sval(&self) -> String {
-        format!("(SStruct [({}, {})])", gal_str("a"), self.a.sval())
+        format!("(SStruct [({}, {})])", gal_lstr("a"), self.a.sval())
     }
     fn arb(r: &mut Rng, d: u32) -> Self {
         KS { a: u8::arb(r, d) }
@@ -558,12 +789,12 @@ enum KE {
 }
 impl Model for KE {
     fn ty() -> String {
-        format!("(TEnum [VUnit {}; VNewtype {} {}])", gal_str("P"), gal_str("Q"), u8::ty())
+        format!("(TEnum [VUnit {}; VNewtype {} {}])", gal_lstr("P"), gal_lstr("Q"), u8::ty())
     }
     fn sval(&self) -> String {
         match self {
-            KE::P => format!("(SVariant {} VKUnit SUnit)", gal_str("P")),
-            KE::Q(x) => format!("(SVariant {} VKNewtype {})", gal_str("Q"), x.sval()),
+            KE::P => format!("(SVariant {} VKUnit SUnit)", gal_lstr("P")),
+            KE::Q(x) => format!("(SVariant {} VKNewtype {})", gal_lstr("Q"), x.sval()),
         }
     }
     fn arb(r: &mut Rng, d: u32) -> Self {
@@ -573,9 +804,9 @@ impl Model for KE {
 
 // ---------------------------------------------------------------- running one (type, value)
 
-fn de_outcome<T: Model>(r: std::thread::Result<Result<T, String>>) -> (String, serde_json::Value, bool) {
+fn de_outcome(r: std::thread::Result<Result<(String, String), String>>) -> (String, serde_json::Value, bool) {
     match r {
-        Ok(Ok(x)) => (format!("(ROk {})", x.sval()), json!({"ok": format!("{x:?}")}), false),
+        Ok(Ok((sv, dbg))) => (format!("(ROk {sv})"), json!({"ok": dbg}), false),
         Ok(Err(e)) => ("(RErr ErrMsg)".into(), json!({"err": e}), false),
         Err(_) => ("(RErr ErrPanic)".into(), json!({"panic": true}), true),
     }
@@ -583,8 +814,12 @@ fn de_outcome<T: Model>(r: std::thread::Result<Result<T, String>>) -> (String, s
 
 fn de_both<T: Model>(val: &Value) -> ((String, serde_json::Value, bool), (String, serde_json::Value, bool)) {
     let v1 = val.clone();
-    let owned = std::panic::catch_unwind(std::panic::AssertUnwindSafe(move || T::deserialize(v1).map_err(|e| e.to_string())));
-    let byref = std::panic::catch_unwind(std::panic::AssertUnwindSafe(|| T::deserialize(val).map_err(|e| e.to_string())));
+    fn describe<T: Model>(x: T) -> (String, String) {
+        let d: String = format!("{x:?}").chars().take(600).collect();
+        (x.sval(), d)
+    }
+    let owned = std::panic::catch_unwind(std::panic::AssertUnwindSafe(move || T::deserialize(v1).map(describe).map_err(|e| e.to_string())));
+    let byref = std::panic::catch_unwind(std::panic::AssertUnwindSafe(|| T::deserialize(val).map(describe).map_err(|e| e.to_string())));
     (de_outcome(owned), de_outcome(byref))
 }
 
@@ -635,7 +870,7 @@ fn strict_text(v: &Value) -> String {
                 .collect();
             format!("{{{}}}", parts.join(","))
         }
-        _ => gal_value(v),
+        _ => gal_lvalue(v),
     }
 }
 
@@ -660,6 +895,13 @@ fn kf_for(ty: &str, byref_differs: bool) -> Option<&'static str> {
 }
 
 fn run_rt<T: Model>(run: &mut Run, v: &T, tname: &str) {
+    let r = std::panic::catch_unwind(std::panic::AssertUnwindSafe(|| run_rt_inner::<T>(run, v, tname)));
+    if r.is_err() {
+        run.meta.oracle_fail("panic while running or describing a case (run_rt)", None,
+            json!({"type": tname, "value": format!("{v:?}").chars().take(400).collect::<String>()}));
+    }
+}
+fn run_rt_inner<T: Model>(run: &mut Run, v: &T, tname: &str) {
     let ty = T::ty();
     let sv = v.sval();
     let ser = guarded(|| Value::try_from_serializable(v));
@@ -718,9 +960,9 @@ fn run_rt<T: Model>(run: &mut Run, v: &T, tname: &str) {
             let mut strs = BTreeMap::new();
             let mut floats = BTreeMap::new();
             collect_oracles(val, &mut strs, &mut floats);
-            g_ff = gal_list(floats.values().map(|(g, s)| format!("({}, {})", g, gal_str(s))).collect());
-            g_sd = gal_list(strs.iter().map(|(k, s)| format!("({}, {})", gal_str(k), gal_str(s))).collect());
-            g_text = text.gal(|s| gal_str(s));
+            g_ff = gal_list(floats.values().map(|(g, s)| format!("({}, {})", g, gal_lstr(s))).collect());
+            g_sd = gal_list(strs.iter().map(|(k, s)| format!("({}, {})", gal_lstr(k), gal_lstr(s))).collect());
+            g_text = text.gal(|s| gal_lstr(s));
             j_text = text.json(|s| json!(s));
             g_owned = o.0;
             g_byref = b.0;
@@ -741,12 +983,12 @@ fn run_rt<T: Model>(run: &mut Run, v: &T, tname: &str) {
     }
     let g = format!(
         "{{| c_ty := {ty}; c_val := {sv}; c_ser := {}; c_owned := {g_owned}; c_byref := {g_byref}; c_text := {g_text}; c_ffmt := {g_ff}; c_sdbg := {g_sd} |}}",
-        ser.gal(gal_value)
+        ser.gal(gal_lvalue)
     );
     let desc = json!({"type": tname, "value": format!("{v:?}"), "ser": ser.json(json_value), "owned": j_owned, "byref": j_byref, "text": j_text});
     let tag_ser = if matches!(ser, Outcome::Ok(_)) { "ser:ok" } else { "ser:refused" };
     let nontrivial = sv.len() > 24;
-    run.rt.push(g, desc, nontrivial, kf_for(&ty, differs), &[tag_ser, &format!("type:{tname}")]);
+    run.rt.push(g, jclean(desc), nontrivial, kf_for(&ty, differs), &[tag_ser, &format!("type:{tname}")]);
 }
 
 /// impl-side oracle: integers print as Rust prints them
@@ -764,7 +1006,48 @@ fn oracle_int_text<T: Model + std::fmt::Display>(run: &mut Run, v: &T, tname: &s
     }
 }
 
+/// impl-side oracle: a string put into a Value (any constructor, and a key turned into a value) is
+/// that string
+fn oracle_string_ctor(run: &mut Run, s: &str) {
+    use tera::value::Key;
+    run.meta.oracle_checks += 1;
+    run.oracle_only += 1;
+    let r = guarded(|| {
+        let leaked: &'static str = Box::leak(s.to_string().into_boxed_str());
+        let vs = [
+            ("Value::from(&str)", Value::from(s)),
+            ("Value::from(String)", Value::from(s.to_string())),
+            ("Value::normal_string", Value::normal_string(s)),
+            ("Value::safe_string", Value::safe_string(s)),
+            ("Key::String::as_value", Key::String(std::sync::Arc::from(s)).as_value()),
+            ("Key::Str::as_value", Key::Str(leaked).as_value()),
+        ];
+        for (what, v) in vs.iter() {
+            if v.as_str() != Some(s) {
+                return Ok(Some((what.to_string(), v.as_str().map(|x| x.len()))));
+            }
+        }
+        Ok(None)
+    });
+    match r {
+        Outcome::Ok(None) => {}
+        Outcome::Ok(Some((what, got))) => run.meta.oracle_fail(
+            "a string stored in a Value is not the string that was given",
+            None,
+            json!({"constructor": what, "byte_len": s.len(), "stored_byte_len": got, "string_prefix": s.chars().take(24).collect::<String>()}),
+        ),
+        other => run.meta.oracle_fail("panic/err in a Value string constructor", None, json!({"byte_len": s.len(), "outcome": other.json(|_| json!(null))})),
+    }
+}
+
 fn run_cross<T: Model>(run: &mut Run, val: &Value, tname: &str) {
+    let r = std::panic::catch_unwind(std::panic::AssertUnwindSafe(|| run_cross_inner::<T>(run, val, tname)));
+    if r.is_err() {
+        run.meta.oracle_fail("panic while running or describing a case (run_cross)", None,
+            json!({"type": tname, "from_kind": format!("{:?}", val.kind())}));
+    }
+}
+fn run_cross_inner<T: Model>(run: &mut Run, val: &Value, tname: &str) {
     let ty = T::ty();
     let (o, b) = de_both::<T>(val);
     run.meta.oracle_checks += 1;
@@ -772,23 +1055,29 @@ fn run_cross<T: Model>(run: &mut Run, val: &Value, tname: &str) {
         run.meta.oracle_fail("panic in deserialize", None, json!({"type": tname, "from": json_value(val)}));
     }
     let differs = o.0 != b.0;
-    let g = format!("{{| x_ty := {ty}; x_val := {}; x_owned := {}; x_byref := {} |}}", gal_value(val), o.0, b.0);
+    let g = format!("{{| x_ty := {ty}; x_val := {}; x_owned := {}; x_byref := {} |}}", gal_lvalue(val), o.0, b.0);
     let desc = json!({"type": tname, "from": json_value(val), "owned": o.1, "byref": b.1});
     let ok = o.0.starts_with("(ROk");
-    run.cross.push(g, desc, ok, kf_for(&ty, differs), &[if ok { "impl:ok" } else { "impl:err" }]);
+    run.cross.push(g, jclean(desc), ok, kf_for(&ty, differs), &[if ok { "impl:ok" } else { "impl:err" }]);
 }
 
 fn run_reser(run: &mut Run, val: &Value) {
+    let r = std::panic::catch_unwind(std::panic::AssertUnwindSafe(|| run_reser_inner(run, val)));
+    if r.is_err() {
+        run.meta.oracle_fail("panic while running or describing a case (run_reser)", None, json!({"value_kind": format!("{:?}", val.kind())}));
+    }
+}
+fn run_reser_inner(run: &mut Run, val: &Value) {
     let r = guarded(|| Value::try_from_serializable(val));
     run.meta.oracle_checks += 1;
     if let Outcome::Panic(m) = &r {
         run.meta.oracle_fail(&format!("panic in try_from_serializable(&value): {m}"), None, json!({"value": json_value(val)}));
     }
-    let g = format!("{{| r_val := {}; r_impl := {} |}}", gal_value(val), r.gal(gal_value));
+    let g = format!("{{| r_val := {}; r_impl := {} |}}", gal_lvalue(val), r.gal(gal_lvalue));
     let desc = json!({"value": json_value(val), "reserialized": r.json(json_value)});
     let nontrivial = val.is_map() || val.is_array();
     let tag = if val.is_map() { "map" } else if val.is_array() { "array" } else { "scalar" };
-    run.reser.push(g, desc, nontrivial, None, &[tag]);
+    run.reser.push(g, jclean(desc), nontrivial, None, &[tag]);
 }
 
 /// maps with every key kind (Bool, U64, I64, U128, I128, String, Str) over every value kind, nested
@@ -826,12 +1115,47 @@ fn reser_pool(base: &[Value]) -> Vec<Value> {
     outer.insert(Key::I128(-9), all);
     out.push(Value::from(outer));
     out.push(Value::from(vec![Value::from(inner)]));
+    // representation boundaries: long strings (normal and safe), long keys (owned and borrowed),
+    // byte strings, sequences of 21/22/255/256/257 elements, maps around the scan cutoffs
+    for ls in long_strings() {
+        out.push(Value::from(ls.as_str()));
+        if ls.len() <= 533 {
+            out.push(Value::safe_string(&ls));
+            out.push(Value::bytes(ls.clone().into_bytes()));
+            let mut m = tera::Map::new();
+            m.insert(Key::String(std::sync::Arc::from(ls.as_str())), Value::from(ls.as_str()));
+            let leaked: &'static str = Box::leak(format!("{ls}!").into_boxed_str());
+            m.insert(Key::Str(leaked), Value::from(true));
+            out.push(Value::from(m));
+        }
+    }
+    for n in [21usize, 22, 255, 256, 257] {
+        out.push(Value::from((0..n).map(|i| Value::from(i as u64)).collect::<Vec<_>>()));
+    }
+    for n in [6usize, 7, 12, 13, 33, 256, 257] {
+        let mut m = tera::Map::new();
+        for i in 0..n {
+            match i % 3 {
+                0 => m.insert(Key::U64(i as u64), Value::from(i as i64 - 3)),
+                1 => m.insert(Key::I64(-(i as i64)), Value::from(format!("v{i}"))),
+                _ => m.insert(Key::String(std::sync::Arc::from(format!("k{i}").as_str())), Value::from(i % 2 == 0)),
+            };
+        }
+        out.push(Value::from(m));
+    }
     out.extend(kinds);
     out.extend(base.iter().cloned());
     out
 }
 
 fn run_ctx<T: Model>(run: &mut Run, v: &T, tname: &str) {
+    let r = std::panic::catch_unwind(std::panic::AssertUnwindSafe(|| run_ctx_inner::<T>(run, v, tname)));
+    if r.is_err() {
+        run.meta.oracle_fail("panic while running or describing a case (run_ctx)", None,
+            json!({"type": tname, "value": format!("{v:?}").chars().take(400).collect::<String>()}));
+    }
+}
+fn run_ctx_inner<T: Model>(run: &mut Run, v: &T, tname: &str) {
     let sv = v.sval();
     let fs = guarded(|| Context::from_serialize(v));
     run.meta.oracle_checks += 1;
@@ -845,7 +1169,7 @@ fn run_ctx<T: Model>(run: &mut Run, v: &T, tname: &str) {
             let mut keys: Vec<String> = val.as_map().map(|m| m.keys().map(|k| k.to_string()).collect()).unwrap_or_default();
             keys.sort();
             keys.dedup();
-            let ents: Vec<String> = keys.iter().map(|k| format!("({}, {})", gal_str(k), gal_opt(&c.get(k).cloned(), |x| gal_value(x)))).collect();
+            let ents: Vec<String> = keys.iter().map(|k| format!("({}, {})", gal_lstr(k), gal_opt(&c.get(k).cloned(), |x| gal_lvalue(x)))).collect();
             // the three construction paths agree
             let mut by_insert = Context::new();
             if v.insert_fields(&mut by_insert) {
@@ -870,7 +1194,7 @@ fn run_ctx<T: Model>(run: &mut Run, v: &T, tname: &str) {
     let g = format!("{{| k_val := {sv}; k_impl := {listing} |}}");
     let desc = json!({"type": tname, "value": format!("{v:?}"), "from_serialize": fs.json(|c| json!(format!("{c:?}")))});
     let ok = matches!(fs, Outcome::Ok(_));
-    run.ctx.push(g, desc, ok && sv.len() > 24, None, &[if ok { "impl:ok" } else { "impl:err" }]);
+    run.ctx.push(g, jclean(desc), ok && sv.len() > 24, None, &[if ok { "impl:ok" } else { "impl:err" }]);
 }
 
 /// boundary values, then `n` generated ones
@@ -897,7 +1221,8 @@ macro_rules! for_all_types {
             BTreeMap<Option<u8>, u8>, BTreeMap<Wrap, u8>, BTreeMap<KE, u8>,
             BTreeMap<FKey, u8>, BTreeMap<(u8, u8), u8>, BTreeMap<KS, u8>, BTreeMap<Vec<u8>, u8>, BTreeMap<(), u8>,
             BTreeMap<String, BTreeMap<(u8, u8), u8>>,
-            Empty, S1, Nums, S2, S3, SW, UnitS, Wrap, WrapV, WrapO, TS, UE, E, E2
+            Empty, S1, Nums, S2, S3, SW, UnitS, Wrap, WrapV, WrapO, TS, UE, E, E2, LongNames, LongVariant,
+            BTreeMap<LongVariant, String>, Vec<LongNames>
         )
     };
 }
@@ -944,6 +1269,27 @@ fn cross_pool(rng: &mut Rng) -> Vec<Value> {
     pool.push(Value::bytes(vec![0xc3]));
     pool.push(Value::bytes(Vec::new()));
     pool.push(Value::from(vec![Value::bytes(b"x".to_vec()), Value::bytes(vec![0xff])]));
+    // strings, byte strings, keys and sequences at the representation boundaries
+    for ls in long_strings() {
+        if ls.len() <= 533 || ls.len() == 65536 {
+            pool.push(Value::from(ls.as_str()));
+        }
+    }
+    for len in [21usize, 22, 256, 277, 533] {
+        pool.push(Value::bytes(long_string(len, 0).into_bytes()));
+        pool.push(Value::bytes(long_string(len, 2).into_bytes()));
+        let mut m = tera::Map::new();
+        m.insert(Key::String(std::sync::Arc::from(long_string(len, 0).as_str())), Value::from(1u8));
+        m.insert(Key::String(std::sync::Arc::from(long_string(len + 1, 1).as_str())), Value::from(long_string(len, 0).as_str()));
+        pool.push(Value::from(m));
+        let mut m = tera::Map::new();
+        m.insert(Key::Str("a"), Value::from(5u8));
+        m.insert(Key::Str("b"), Value::from(long_string(len, 0).as_str()));
+        m.insert(Key::Str("c"), Value::from(long_string(len, 3).as_str()));
+        pool.push(Value::from(m));
+        pool.push(Value::from((0..len).map(|i| Value::from((i % 200) as u64)).collect::<Vec<_>>()));
+        pool.push(Value::from(vec![Value::from(long_string(len, 0).as_str()), Value::from(long_string(len, 1).as_str())]));
+    }
     pool.extend(pools::int_values());
     pool.extend(pools::float_pool().into_iter().map(Value::from));
     pool.extend(pools::string_pool().into_iter().map(Value::from));
@@ -976,7 +1322,9 @@ fn cross_pool(rng: &mut Rng) -> Vec<Value> {
 
 fn main() {
     let args = parse_args();
-    silence_panics();
+    if std::env::var("C19_LOUD").is_err() {
+        silence_panics();
+    }
     let tera = Tera::default();
     let mut rng = Rng::new(args.seed);
     let thorough = args.tier == "thorough";
@@ -990,6 +1338,10 @@ fn main() {
         meta: Meta::default(),
         oracle_only: 0,
     };
+    // cases with 64 KiB strings are heavy for coqc: small shards spread them over the workers
+    run.rt.shard_cap_set(100);
+    run.reser.shard_cap_set(120);
+    run.ctx.shard_cap_set(100);
 
     // corpus: the inputs of D7 / D14 and the excluded option-in-option class, always first
     run_rt::<Option<u8>>(&mut run, &Some(3), "Option<u8>");
@@ -1004,6 +1356,24 @@ fn main() {
 
     let n_rt = if thorough { 500 } else { 22 };
     for_all_types!(do_rt, &mut run, &mut rng, n_rt);
+
+    for ls in long_strings() {
+        oracle_string_ctor(&mut run, &ls);
+    }
+    if thorough {
+        // every byte length 0..=600, ASCII and with a multi-byte character across byte 21|22
+        for len in 0..=600usize {
+            for variant in [0u32, 1 + (len % 3) as u32] {
+                let ls = long_string(len, variant);
+                oracle_string_ctor(&mut run, &ls);
+                run_rt::<String>(&mut run, &ls, "String");
+                run_reser(&mut run, &Value::from(ls.as_str()));
+            }
+            if len % 8 == 0 {
+                run_rt::<BTreeMap<String, String>>(&mut run, &BTreeMap::from([(long_string(len, 0), long_string(len + 1, 0))]), "BTreeMap<String, String>");
+            }
+        }
+    }
 
     do_int_text!(&mut run; u8, u16, u32, u64, u128, usize, i8, i16, i32, i64, i128, isize);
 
@@ -1032,6 +1402,10 @@ fn main() {
     for_all_types!(do_ctx, &mut run, &mut rng, n_ctx);
 
     let Run { rt, cross, ctx, reser, mut meta, oracle_only, .. } = run;
+    meta.oracle_failures = std::mem::take(&mut meta.oracle_failures).into_iter().map(jclean).collect();
+    for what in INVALID_UTF8.lock().unwrap().iter() {
+        meta.oracle_fail("a string held by a Value / returned by deserialize is not valid UTF-8", None, json!({"string": what}));
+    }
     meta.extra.insert("oracle_only_evaluations".into(), json!(oracle_only));
     meta.extra.insert("oracle_only_nontrivial".into(), json!(oracle_only));
     meta.extra.insert("cross_pool_size".into(), json!(pool.len()));
